@@ -24,6 +24,15 @@ pub(crate) mod testonly;
 mod tests;
 mod timeout;
 
+/// Error types of the message handlers, for the verification hook.
+#[cfg(feature = "verif")]
+pub(crate) mod verif_errors {
+    pub(crate) use super::{
+        commit::Error as Commit, new_view::Error as NewView, proposal::Error as Proposal,
+        timeout::Error as Timeout,
+    };
+}
+
 /// The StateMachine struct contains the state of the replica and implements all the
 /// logic of ChonkyBFT.
 #[derive(Debug)]
